@@ -120,7 +120,9 @@ func (b *block) processTags(tf tagValues, tagFamilyIdx, i int, elementsLen int) 
 		} else if t.value != nil {
 			tags[j].uniqueValues[convert.BytesToString(t.value)] = struct{}{}
 		}
-		if t.valueType == pbv1.ValueTypeInt64 {
+		// A null cell has no value: it must not take part in the bounds, otherwise
+		// it resets min and a later, larger value replaces the real minimum.
+		if t.valueType == pbv1.ValueTypeInt64 && len(t.value) > 0 {
 			if len(tags[j].min) == 0 {
 				tags[j].min = t.value
 			} else if bytes.Compare(t.value, tags[j].min) == -1 {
